@@ -150,7 +150,7 @@ public:
     static bool isJingleRtpFeedbackInterval(const QDomElement &element);
 
 private:
-    uint64_t m_value;
+    uint64_t m_value = 0;
 };
 
 class QXMPP_EXPORT QXmppJingleRtpHeaderExtensionProperty
